@@ -12,10 +12,12 @@
 import glob
 import json
 import os
+import re
+import shutil
 
 import vlib
-from vlib import (HarnessError, build, log, mc_coverage, ncpu, parallel, read_line, report_violation, run_driver,
-                  save_replay, tlc_mc, tlc_trace, trace_lines, finish)
+from vlib import (HarnessError, build, finish, log, mc_coverage, ncpu, parallel, read_line, report_violation, run_driver,
+                  save_replay, tlc_mc, trace_lines)
 
 ASSUME = ["TLC and the CommunityModules Json reader are trusted",
           "the driver's event discipline is trusted: release-begin is written before Handle.Release is called, get-end after "
@@ -33,8 +35,8 @@ TIERS = {
                   base=(24, ["-epochs", "2", "-rounds", "3", "-ops", "3000"]),
                   hazard=(16, ["-epochs", "24", "-rounds", "1", "-ops", "300", "-close", "soft-gets,force-race,soft-release"])),
     "thorough": dict(mc="Cache_thorough.cfg", mc_timeout=1750,
-                     base=(128, ["-epochs", "4", "-rounds", "4", "-ops", "4000"]),
-                     hazard=(64, ["-epochs", "60", "-rounds", "1", "-ops", "300", "-close", "soft-gets,force-race,soft-release"])),
+                     base=(96, ["-epochs", "3", "-rounds", "4", "-ops", "4000"]),
+                     hazard=(48, ["-epochs", "60", "-rounds", "1", "-ops", "300", "-close", "soft-gets,force-race,soft-release"])),
 }
 
 
@@ -51,6 +53,27 @@ def design_runs(ctx, tier):
     res["repaired"] = tlc_mc(ctx, "Cache.tla", "Cache_repaired.cfg", timeout=600,
                              label="Cache with RecheckClosed + AtomicFin (candidate repair), no assumption")
     return res
+
+
+_seq = [0]
+
+
+def trace_tlc(ctx, trace, timeout=900):
+    """vlib.tlc_trace with a small JVM (many run side by side with the design-spec run)."""
+    _seq[0] += 1
+    md = ctx.path("c17-md-%d-%d" % (os.getpid(), _seq[0]))
+    env = dict(os.environ, TRACE=trace, JAVA_TOOL_OPTIONS="-Xmx2g -Xss512m")
+    rc, out, err = vlib.run(["timeout", str(timeout), "tlc", "-workers", "1", "-metadir", md, "-noGenerateSpecTE",
+                             "-config", "CacheTrace.cfg", "CacheTrace.tla"], cwd=vlib.SPEC, env=env)
+    shutil.rmtree(md, ignore_errors=True)
+    out = (out or "") + "\n" + (err or "")
+    m = re.search(r'<<"VERIF-HWM", (\d+), (\d+)>>', out)
+    if m is None:
+        raise HarnessError("trace validation of %s produced no report (rc=%s):\n%s" % (trace, rc, out[-3000:]))
+    hwm, n = int(m.group(1)), int(m.group(2))
+    i = out.find('"VERIF-STUCK"')
+    return {"accepted": hwm == n + 1, "hwm": hwm, "len": n,
+            "stuck": out[i:i + 1500].split("\nModel checking")[0] if hwm <= n and i >= 0 else None}
 
 
 def epoch_of(path, lineno):
@@ -73,43 +96,33 @@ def mark_known(path, lineno):
     open(path, "w").write("\n".join(lines) + "\n")
 
 
-def validate(ctx, traces):
-    """Validate every trace; a rejected line that matches a listed known finding is marked and the trace is
-    validated again, so that the rest of it still counts."""
-    def one(t):
-        for _ in range(40):
-            r = tlc_trace(ctx, "CacheTrace.tla", "CacheTrace.cfg", t["path"], timeout=900)
-            if r["accepted"]:
-                return t, None
-            line = read_line(t["path"], r["hwm"]) or "{}"
-            ev = json.loads(line)
-            ep = epoch_of(t["path"], r["hwm"])
-            sig = "c17:%s:%s" % (ep.get("close", "?"), ev.get("ev"))
-            what = ("line %d of %s (epoch %s: %s goroutines, GOMAXPROCS %s, %s keys, closing variant %s) is not accepted "
-                    "by the C17 monitor: %s" % (r["hwm"], os.path.basename(t["path"]), ep.get("epoch"), ep.get("g"),
-                                                ep.get("procs"), ep.get("nk"), ep.get("close"), line[:300]))
-            rp = save_replay(ctx, "%s-seed%d" % (t["group"], t["seed"]), [t["path"]],
-                             {"property": ctx.pid, "cmd": t["cmd"], "stuck_line": r["hwm"], "event": ev, "epoch": ep, "sig": sig,
-                              "context": trace_lines(t["path"], max(1, r["hwm"] - 12), r["hwm"]),
-                              "replay": "./check C17 --replay <this directory>  (TRACE=<trace> tlc -workers 1 -config "
-                                        "CacheTrace.cfg CacheTrace.tla in /verif/spec)"})
-            if report_violation(ctx, sig, what, rp):
-                return t, r
-            if ev.get("ev") not in ("finalize", "delfunc"):
-                raise HarnessError("known finding %s matches a line the monitor cannot step over: %s" % (sig, line[:200]))
-            t["known_lines"] = t.get("known_lines", 0) + 1
-            mark_known(t["path"], r["hwm"])
-        raise HarnessError("more than 40 known-finding lines in %s" % t["path"])
-
-    os.environ["JAVA_TOOL_OPTIONS"] = "-Xmx2g"      # one small JVM per trace
-    fails = []
-    for t, r in parallel(one, traces, workers=max(2, ncpu() // 2)):
-        if r is None:
-            ctx.traces_ok += 1
-            ctx.trace_events += t["events"]
-        else:
-            fails.append((t, r))
-    return fails
+def validate_one(ctx, t):
+    """Validate one trace; a rejected line that matches a listed known finding is marked and the trace is
+    validated again, so that the rest of it still counts.  Returns None when accepted."""
+    for _ in range(40):
+        r = trace_tlc(ctx, t["path"])
+        if r["accepted"]:
+            return None
+        line = read_line(t["path"], r["hwm"]) or "{}"
+        ev = json.loads(line)
+        ep = epoch_of(t["path"], r["hwm"])
+        sig = "c17:%s:%s" % (ep.get("close", "?"), ev.get("ev"))
+        what = ("line %d of %s (epoch %s: %s goroutines, GOMAXPROCS %s, %s keys, closing variant %s) is not accepted "
+                "by the C17 monitor: %s" % (r["hwm"], os.path.basename(t["path"]), ep.get("epoch"), ep.get("g"),
+                                            ep.get("procs"), ep.get("nk"), ep.get("close"), line[:300]))
+        rp = save_replay(ctx, "%s-seed%d" % (t["group"], t["seed"]), [t["path"]],
+                         {"property": ctx.pid, "cmd": t["cmd"], "stuck_line": r["hwm"], "event": ev, "epoch": ep, "sig": sig,
+                          "context": trace_lines(t["path"], max(1, r["hwm"] - 12), r["hwm"]),
+                          "replay": "./check C17 --replay <this directory>  (TRACE=<trace> tlc -workers 1 -config "
+                                    "CacheTrace.cfg CacheTrace.tla in /verif/spec)"})
+        if report_violation(ctx, sig, what, rp):
+            return r
+        shutil.rmtree(rp, ignore_errors=True)        # a listed known finding needs no replay
+        if ev.get("ev") not in ("finalize", "delfunc", "get-end"):
+            raise HarnessError("known finding %s matches a line the monitor cannot step over: %s" % (sig, line[:200]))
+        t["known_lines"] = t.get("known_lines", 0) + 1
+        mark_known(t["path"], r["hwm"])
+    raise HarnessError("more than 40 known-finding lines in %s" % t["path"])
 
 
 def main(ctx):
@@ -129,11 +142,19 @@ def main(ctx):
         cmd = [exe, "-seed", str(seed), "-procs", str(procs), "-out", out] + args
         s = run_driver(cmd, timeout=600)
         s.update(path=out, group=group, cmd=" ".join(cmd).replace(out, "<trace>"))
+        s["fail"] = validate_one(ctx, s)
+        if s["fail"] is None:
+            s["first"] = trace_lines(out, 1, 12)
+            os.unlink(out)
         return s
 
-    # the design-spec runs share the machine with the (short) drivers
-    res = parallel(drive, ["design"] + jobs, workers=ncpu())
+    # the design-spec runs share the machine with the drivers and the (single-threaded) trace validations
+    res = parallel(drive, ["design"] + jobs, workers=max(4, ncpu() - 2))
     sums = res[1:]
+    for s in sums:
+        if s["fail"] is None:
+            ctx.traces_ok += 1
+            ctx.trace_events += s["events"]
 
     tot = {"calls": {}, "closes": {}}
     for s in sums:
@@ -165,20 +186,19 @@ def main(ctx):
         if tot["closes"].get(v, 0) == 0:
             raise HarnessError("closing variant %s never ran" % v)
 
-    validate(ctx, sums)
     ctx.extra["known_finding_lines_stepped_over"] = sum(s.get("known_lines", 0) for s in sums)
     if sums:
-        ctx.samples.append({"program": sums[0]["cmd"], "first_events": trace_lines(sums[0]["path"], 1, 12)})
+        ok = [x for x in sums if x["fail"] is None] or sums
+        ctx.samples.append({"program": ok[0]["cmd"], "first_events": ok[0].get("first", [])})
     cov = mc_coverage(ctx, {"design_spec_as_coded_without_assumption": "FinalizeOnce violated (expected; KNOWN_FINDINGS)"})
     return finish(ctx, "model_checking", cov, ASSUME)
 
 
 def replay(ctx, path):
     files = sorted(glob.glob(os.path.join(path, "*.ndjson"))) if os.path.isdir(path) else [path]
-    os.environ["JAVA_TOOL_OPTIONS"] = "-Xmx2g"
     bad = 0
     for f in files:
-        r = tlc_trace(ctx, "CacheTrace.tla", "CacheTrace.cfg", f)
+        r = trace_tlc(ctx, f)
         if not r["accepted"]:
             bad += 1
             print("VIOLATION property=%s replay=%s" % (ctx.pid, path))
